@@ -23,15 +23,13 @@ def run(c):
     if c.replay and "witness" in c.replay and "wit" in c.replay["witness"]:
         w = c.replay["witness"]
         replay_item = (w["config"], w["wit"])
-    n_worlds = 40 - len(corpus) if quick else 400
+    n_worlds = 40 - len(corpus) if quick else 200
     per_fn = 3 if quick else 6
     items, stats = bc.make_items(c.rng, max(n_worlds, 0), bc.BASE_FEATURES, corpus, replay_item)
-    batches, dropped = bc.build_all(c, items, emitter)
+    dropped = {}
+    batches = bc.iter_batches(c, items, emitter, dropped)
+    ncompiled = 0
     cfgs = {}
-    for k, e in dropped.items():
-        cls = bc.classify_compile_error(e)
-        c.spec_violation(cls, "generated Rust bindings do not compile, so no value can cross the boundary (" + e + ")",
-                         {"config": items[k][0], "wit": items[k][1], "rustc": e})
     # worlds known not to compile: their own small batch (each must still fail to compile)
     nc = bc.load_corpus(os.path.join(VERIF, "corpus", "C05-nocompile.txt"))
     nc_items = [(cfg, text.replace("t:wX", f"t:w{900 + k}")) for k, (cfg, text) in enumerate(nc)]
@@ -43,7 +41,14 @@ def run(c):
         c.cov["nocompile_corpus"] = {"worlds": len(nc_items), "still_failing": len(nc_dropped)}
     counts = {"export": 0, "import": 0, "indirect-params": 0, "retptr": 0, "through-memory": 0}
     reqs, impl, model = [], [], []
+    renderings = {}
     for batch, gmap in batches:
+        ncompiled += len(gmap)
+        fr = bc.flags_lift_rendering(batch)
+        renderings[str(fr)] = renderings.get(str(fr), 0) + 1
+        if fr == "?":
+            c.broken.append(("translator:flags-lift-rendering", "the FlagsLift template of the Rust backend is not one of the two modelled renderings"))
+        bc.Runner.flags_mode = fr if fr in ("zext", "sext") else "zext"
         bc.check_signatures(c, host, batch)
         for m in batch.manifest:
             if m["dir"] == "item":
@@ -75,8 +80,13 @@ def run(c):
                 c.sample({"config": cfg, "function": m["key"], "type": m["func"], "args": bc.vals_term(o["vals"])[:300],
                           "observed": (o.get("observed") or o.get("lifted_args") or "")[:300]})
         bc.run_calls(c, batch, host, c.rng, per_fn, on_outcome)
+    for k, e in dropped.items():
+        cls = bc.classify_compile_error(e)
+        c.spec_violation(cls, "generated Rust bindings do not compile, so no value can cross the boundary (" + e + ")",
+                         {"config": items[k][0], "wit": items[k][1], "rustc": e})
+    c.cov["flags_lift_rendering_per_batch"] = renderings
     c.compare("values", reqs, impl, model, nontrivial=lambda r, o: False)
-    c.cov["worlds"] = {"generated": len(items), "corpus": len(corpus), "compiled": sum(len(g) for _, g in batches),
+    c.cov["worlds"] = {"generated": len(items), "corpus": len(corpus), "compiled": ncompiled,
                        "dropped_not_compiling": len(dropped)}
     c.cov["configurations"] = cfgs
     c.cov["type_constructors_generated"] = stats
